@@ -16,7 +16,12 @@ CInit(trig) == [ running |-> FALSE,    \* between StartCall and StopCall
                  gated   |-> trig,     \* ... and enabled during the whole current run
                  trigs   |-> 0,        \* triggers since this start
                  frames  |-> 0,        \* data-bearing frame calls since this start
-                 lastHw  |-> -1 ]
+                 lastHw  |-> -1,
+                 \* ---- trigger enabled while the camera runs (re-gating) ----
+                 inCall  |-> FALSE,    \* a frame call is in progress
+                 callNew |-> FALSE,    \* ... and it was made after the last event that can leave a trigger latched
+                 fresh   |-> 2,        \* data frames whose calls were made after that event (2 = the latch has been consumed for sure)
+                 re      |-> [on |-> FALSE, allow |-> 0, got |-> 0, trigs |-> 0] ]
 Init == l = 1 /\ c = CInit(FALSE) /\ bad = <<>> /\ nbad = 0 /\ done = FALSE
 Ev == Tr[l]
 If(x, name) == IF x THEN <<name>> ELSE <<>>
@@ -29,12 +34,18 @@ Flag(rules) == /\ bad' = AddAll(bad, rules, 1)
                /\ nbad' = nbad + Len(rules)
 NoFlag == bad' = bad /\ nbad' = nbad
 
+ReOff == [on |-> FALSE, allow |-> 0, got |-> 0, trigs |-> 0]
 FrameRules(e) ==
   IF e.rc # 0 \/ e.nbytes <= 0 THEN <<>>       \* error, or "no data" said explicitly
   ELSE If(e.hw < 0, "FrameIdInvalid")
        \o If(e.hw >= 0 /\ e.hw <= c.lastHw, "FrameIdNotIncreasing")
        \o If(c.gated /\ c.frames + 1 > c.trigs, "FrameWithoutTrigger")
        \o If(c.gated /\ e.hw >= 0 /\ e.hw + 1 > c.trigs, "FrameIdBeyondTriggers")
+       \* the trigger was enabled while the camera ran: from the moment `set` took effect every new exposure needs a trigger.
+       \* What may still arrive without one: the exposure in flight, one frame published to a call that was pending, and one
+       \* exposure on a trigger latched earlier (fired while free-running, or by a disabling `set`) unless two whole frames
+       \* were called for and delivered in between (the streamer consumes the latch when it begins an exposure).
+       \o If(c.re.on /\ c.re.got + 1 > c.re.allow + c.re.trigs, "FrameWithoutTriggerAfterEnable")
        \* the count restarts with each start: gen bounds (generously) the frames this run's streamer thread can have generated
        \o If("gen" \in DOMAIN e /\ e.hw > e.gen, "FrameIdBeyondGenerated")
        \* C17 on a camera re-configured while a frame call is pending (the harness compares the caller's buffer with the shape
@@ -46,18 +57,30 @@ Next1 ==
   /\ l <= Len(Tr) /\ ~done /\ l' = l + 1 /\ done' = FALSE
   /\ LET e == Ev  k == e.e IN
      CASE k = "Reset" -> c' = CInit(e.trig) /\ NoFlag
-       [] k = "StartCall" -> c' = [c EXCEPT !.running = TRUE, !.gated = c.trig, !.trigs = 0, !.frames = 0, !.lastHw = -1] /\ NoFlag
-       [] k = "StopCall" -> c' = [c EXCEPT !.running = FALSE] /\ NoFlag
-       [] k = "Trig" -> c' = [c EXCEPT !.trigs = c.trigs + 1] /\ NoFlag
-       [] k = "SetTrigCall" -> c' = [c EXCEPT !.gated = c.gated /\ e.b] /\ NoFlag
-       [] k = "SetTrig" -> c' = [c EXCEPT !.trig = e.b, !.gated = c.gated /\ e.b] /\ NoFlag
+       [] k = "StartCall" -> c' = [c EXCEPT !.running = TRUE, !.gated = c.trig, !.trigs = 0, !.frames = 0, !.lastHw = -1,
+                                            !.fresh = 2, !.callNew = FALSE, !.re = ReOff] /\ NoFlag
+       [] k = "StopCall" -> c' = [c EXCEPT !.running = FALSE, !.re = ReOff] /\ NoFlag
+       [] k = "Trig" -> c' = [c EXCEPT !.trigs = c.trigs + 1, !.fresh = 0, !.callNew = FALSE,
+                                       !.re = IF c.re.on THEN [c.re EXCEPT !.trigs = c.re.trigs + 1] ELSE c.re] /\ NoFlag
+       [] k = "SetTrigCall" -> c' = (IF e.b THEN [c EXCEPT !.gated = c.gated /\ e.b]
+                                     \* a disabling set fires the trigger itself and ends the gated period
+                                     ELSE [c EXCEPT !.gated = FALSE, !.re = ReOff, !.fresh = IF c.trig THEN 0 ELSE c.fresh,
+                                                    !.callNew = IF c.trig THEN FALSE ELSE c.callNew]) /\ NoFlag
+       [] k = "SetTrig" -> c' = [c EXCEPT !.trig = e.b, !.gated = c.gated /\ e.b,
+                                          !.re = IF e.b /\ ~c.trig /\ c.running /\ e.rc = 0
+                                                 THEN [on |-> TRUE, got |-> 0, trigs |-> 0,
+                                                       allow |-> 1 + (IF c.inCall THEN 1 ELSE 0) + (IF c.fresh >= 2 THEN 0 ELSE 1)]
+                                                 ELSE IF e.b THEN c.re ELSE ReOff] /\ NoFlag
+       [] k = "GetFrameCall" -> c' = [c EXCEPT !.inCall = TRUE, !.callNew = TRUE] /\ NoFlag
        [] k = "GetFrameRet" -> /\ Flag(FrameRules(e))
                                /\ c' = (IF e.rc = 0 /\ e.nbytes > 0
-                                        THEN [c EXCEPT !.frames = c.frames + 1, !.lastHw = IF e.hw > c.lastHw THEN e.hw ELSE c.lastHw]
-                                        ELSE c)
+                                        THEN [c EXCEPT !.frames = c.frames + 1, !.lastHw = IF e.hw > c.lastHw THEN e.hw ELSE c.lastHw,
+                                                       !.inCall = FALSE, !.fresh = IF c.callNew /\ c.fresh < 2 THEN c.fresh + 1 ELSE c.fresh,
+                                                       !.re = IF c.re.on THEN [c.re EXCEPT !.got = c.re.got + 1] ELSE c.re]
+                                        ELSE [c EXCEPT !.inCall = FALSE])
        [] k = "Hang" -> Flag(IF e.ctl = "stop" THEN <<"StopDidNotReturn">>
                              ELSE IF e.incall THEN <<"FrameCallNotReleased">> ELSE <<"HangOther">>) /\ c' = c
-       [] k \in {"StartRet", "StopRet", "GetFrameCall", "End", "Sched"} -> c' = c /\ NoFlag
+       [] k \in {"StartRet", "StopRet", "End", "Sched"} -> c' = c /\ NoFlag
        [] OTHER -> Flag(<<"UnknownEvent">>) /\ c' = c
 Finish == /\ l = Len(Tr) + 1 /\ ~done /\ done' = TRUE
           /\ PrintT(<<"VERDICT", ToJson([consumed |-> l - 1, nbad |-> nbad, bad |-> bad])>>)
